@@ -29,7 +29,7 @@ use mockcluster::{Action, LogKind, MockCluster};
 use scylla::client::execution_profile::ExecutionProfile;
 use scylla::client::session::Session;
 use scylla::client::session_builder::SessionBuilder;
-use scylla::policies::retry::DefaultRetryPolicy;
+use scylla::policies::retry::{DefaultRetryPolicy, FallthroughRetryPolicy};
 use scylla::policies::speculative_execution::SimpleSpeculativeExecutionPolicy;
 use serde_json::json;
 use std::collections::BTreeSet;
@@ -72,6 +72,8 @@ impl Outcome {
 }
 
 struct Params {
+    /// the phase: non-idempotent statements are explored first (their tree is small and carries the main clause)
+    idempotent: bool,
     max_counts: Vec<usize>,
     variants: Vec<(Api, usize)>,
     settle_non: Duration,
@@ -106,11 +108,11 @@ fn is_test_action(a: &Action, page: usize) -> bool {
     a.request().and_then(ident).map(|(id, p, _)| id == CASE_ID && p == page).unwrap_or(false)
 }
 
-async fn build_world(max: usize) -> Result<World, String> {
+async fn build_world(max: usize, fallthrough: bool) -> Result<World, String> {
     let cluster = build_cluster().await?;
     let profile = ExecutionProfile::builder()
         .request_timeout(None)
-        .retry_policy(Arc::new(DefaultRetryPolicy::new()))
+        .retry_policy(if fallthrough { Arc::new(FallthroughRetryPolicy::new()) } else { Arc::new(DefaultRetryPolicy::new()) })
         .speculative_execution_policy(Some(Arc::new(SimpleSpeculativeExecutionPolicy { max_retry_count: max, retry_interval: INTERVAL })))
         .build();
     let sb = SessionBuilder::new().known_node(cluster.contact_point(0)).default_execution_profile_handle(profile.into_handle());
@@ -126,15 +128,21 @@ async fn build_world(max: usize) -> Result<World, String> {
 
 /// Ok(()) = the execution met the oracle; Err(text) = "key :: description".
 async fn run(p: &Params, ch: &mut Chooser, stats: &Mutex<Stats>, verbose: bool) -> Result<(), String> {
-    let idempotent = ch.choose_free("idempotent", 2) == 1;
+    let idempotent = p.idempotent;
     let max = p.max_counts[ch.choose_free("max", p.max_counts.len())];
+    let fallthrough = ch.choose_free("retry-policy", 2) == 1;
     let (api, page) = p.variants[ch.choose_free("api", p.variants.len())];
-    let outcomes: &[Outcome] = if idempotent { &[Outcome::Success, Outcome::Definitive, Outcome::Overloaded] } else { &[Outcome::Success, Outcome::Definitive, Outcome::Overloaded, Outcome::Bootstrapping] };
-    let moves_on = |o: Outcome| if idempotent { o == Outcome::Overloaded } else { o == Outcome::Bootstrapping };
+    // Default retry policy: Overloaded moves an idempotent request to the next plan target inside the same execution
+    // and ends a non-idempotent one; IsBootstrapping moves on either way. Fallthrough: every failure ends its
+    // execution; for an idempotent request Overloaded is then an IGNORABLE result of that execution - the call must
+    // keep waiting for the other executions and for those the timer may still start.
+    let outcomes: &[Outcome] = if idempotent || fallthrough { &[Outcome::Success, Outcome::Definitive, Outcome::Overloaded] } else { &[Outcome::Success, Outcome::Definitive, Outcome::Overloaded, Outcome::Bootstrapping] };
+    let takes_next_target = |o: Outcome| !fallthrough && if idempotent { o == Outcome::Overloaded } else { o == Outcome::Bootstrapping };
+    let moves_on = |o: Outcome| takes_next_target(o) || (fallthrough && idempotent && o == Outcome::Overloaded);
     let executions_allowed = if idempotent { 1 + max } else { 1 };
-    let cfg_text = format!("{} page {page}, idempotent={idempotent}, speculative max {max}", api.name());
+    let cfg_text = format!("{} page {page}, idempotent={idempotent}, speculative max {max}, retry policy {}", api.name(), if fallthrough { "fallthrough" } else { "default" });
 
-    let w = build_world(max).await.unwrap_or_else(|e| vcore::machinery_error(&e));
+    let w = build_world(max, fallthrough).await.unwrap_or_else(|e| vcore::machinery_error(&e));
     let cluster = w.cluster.clone();
     cluster.hold(move |a| is_test_action(a, page));
     let call_cfg = CallCfg { api, id: CASE_ID, idempotent, consistency: None, profile: None };
@@ -150,6 +158,7 @@ async fn run(p: &Params, ch: &mut Chooser, stats: &Mutex<Stats>, verbose: bool) 
     let mut last_released: Option<Outcome> = None;
     let mut steps = 0u64;
     let mut verdict: Result<(), String> = Ok(());
+    let mut forbidden_seen = false;
 
     'run: loop {
         let expected_total = N_NODES.min(executions_allowed + moved_on);
@@ -161,6 +170,7 @@ async fn run(p: &Params, ch: &mut Chooser, stats: &Mutex<Stats>, verbose: bool) 
             let seen: BTreeSet<u64> = acked.iter().map(|a| a.id).collect();
             if let Ok(extra) = cluster.wait_held_for("an execution that must not start", window, |a| is_test_action(a, page) && !seen.contains(&a.id)).await {
                 trace.push(format!("UNEXPECTED frame on node {} while {} outstanding", extra.node, outstanding.len()));
+                forbidden_seen = true;
                 break 'run; // the log oracle below names it
             }
             trace.push(format!("settled {}ms: no further execution", window.as_millis()));
@@ -180,7 +190,15 @@ async fn run(p: &Params, ch: &mut Chooser, stats: &Mutex<Stats>, verbose: bool) 
         steps += 1;
         if c == outstanding.len() * outcomes.len() {
             let seen: BTreeSet<u64> = acked.iter().map(|a| a.id).collect();
-            match cluster.wait_held("the next execution's frame", |a| is_test_action(a, page) && !seen.contains(&a.id)).await {
+            let arrived = tokio::select! {
+                biased;
+                a = cluster.wait_held("the next execution's frame", |a| is_test_action(a, page) && !seen.contains(&a.id)) => a,
+                _ = &mut handle => {
+                    verdict = Err(violation("c13-mock:returned-before-any-answer", format!("{cfg_text}: the call returned although no success or definitive error was released and another execution could still be started; steps {trace:?}")));
+                    break 'run;
+                }
+            };
+            match arrived {
                 Ok(a) => {
                     trace.push(format!("frame {} arrived on node {}", acked.len(), a.node));
                     acked.push(a);
@@ -215,7 +233,9 @@ async fn run(p: &Params, ch: &mut Chooser, stats: &Mutex<Stats>, verbose: bool) 
         last_released = Some(o);
         trace.push(format!("release frame {i} (node {}) with {}", a.node, o.name()));
         if moves_on(o) {
-            moved_on += 1;
+            if takes_next_target(o) {
+                moved_on += 1;
+            }
         } else {
             terminal = Some((i, o));
             break 'run;
@@ -223,7 +243,7 @@ async fn run(p: &Params, ch: &mut Chooser, stats: &Mutex<Stats>, verbose: bool) 
     }
 
     // ---- the call returns
-    let out = if verdict.is_ok() {
+    let out = if verdict.is_ok() && !forbidden_seen {
         match tokio::time::timeout(LIVENESS, &mut handle).await {
             Ok(Ok(o)) => Some(o),
             Ok(Err(e)) => {
@@ -316,7 +336,7 @@ async fn run(p: &Params, ch: &mut Chooser, stats: &Mutex<Stats>, verbose: bool) 
             None => {
                 let want = last_released.map(|o| o.driver_name());
                 if out.err.as_deref() != want {
-                    complain("c13-mock:last-error-not-returned", format!("{cfg_text}: every execution failed ignorably and the plan was used up; last released error {want:?}; the caller got err={:?} rows={:?}; steps {trace:?}", out.err, out.rows));
+                    complain("c13-mock:last-error-not-returned", format!("{cfg_text}: every execution failed ignorably and none may still be started; last released error {want:?}; the caller got err={:?} rows={:?}; steps {trace:?}", out.err, out.rows));
                 }
             }
         }
@@ -341,7 +361,7 @@ async fn run(p: &Params, ch: &mut Chooser, stats: &Mutex<Stats>, verbose: bool) 
         }
         *s.per_variant.entry(format!("{}_page{page}_{}", api.name(), if idempotent { "idempotent" } else { "nonidempotent" })).or_default() += 1;
         *s.results.entry(result_sig.clone()).or_default() += 1;
-        s.signatures.insert(format!("{idempotent}|{max}|{}|{max_out}|{result_sig}", frames.len()));
+        s.signatures.insert(format!("{idempotent}|{fallthrough}|{max}|{}|{max_out}|{result_sig}", frames.len()));
     }
     w.cluster.shutdown().await;
     drop(w);
@@ -362,7 +382,8 @@ fn main() {
     let r = Report::new("C13", "mock", "model_checking", "E-MOCK");
     std::panic::set_hook(Box::new(|_| {}));
     let thorough = r.tier().is_thorough();
-    let p = Params {
+    let params = |idempotent: bool| Params {
+        idempotent,
         max_counts: if thorough { vec![0, 1, 2, 3] } else { vec![0, 1, 2] },
         variants: vec![(Api::QuerySel, 0), (Api::ExecSel, 0), (Api::Batch, 0), (Api::QueryIter, 0), (Api::ExecIter, 0), (Api::QueryIter, 1), (Api::ExecIter, 1)],
         settle_non: INTERVAL * 30,
@@ -371,6 +392,7 @@ fn main() {
     let stats: Mutex<Stats> = Default::default();
     if let Some(case) = r.replay_case() {
         let choices: Vec<usize> = case["choices"].as_array().map(|a| a.iter().map(|x| x.as_u64().unwrap_or(0) as usize).collect()).unwrap_or_default();
+        let p = params(case["idempotent"].as_bool().unwrap_or(false));
         // a replay file written by one tier is replayed with that tier's parameter lists
         let (res, ch) = vcore::dfs::replay_one(&choices, |ch| run_blocking(&p, ch, &stats, true));
         if let Some(d) = ch.diverged {
@@ -382,18 +404,40 @@ fn main() {
         }
         r.finish_replay();
     }
-    let opts = DfsOpts { bound: 0, max_executions: 2_000_000, wall: Duration::from_secs(r.tier().pick(50, 900)), jobs: r.args.jobs.clamp(1, 16), stop_at_first: true };
-    let res = vcore::dfs::explore(&opts, |ch| run_blocking(&p, ch, &stats, false));
-    if !res.divergences.is_empty() {
-        vcore::machinery_error(&format!("replay divergence: {}", res.divergences[0]));
+    let t0 = std::time::Instant::now();
+    let budget = Duration::from_secs(r.tier().pick(120, 900));
+    let mut executions = 0u64;
+    let mut max_points = 0usize;
+    let mut capped: Option<String> = None;
+    let mut found = false;
+    for idempotent in [false, true] {
+        let p = params(idempotent);
+        let opts = DfsOpts { bound: 0, max_executions: 2_000_000, wall: budget.saturating_sub(t0.elapsed()), jobs: r.args.jobs.clamp(1, 16), stop_at_first: true };
+        let res = vcore::dfs::explore(&opts, |ch| run_blocking(&p, ch, &stats, false));
+        if !res.divergences.is_empty() {
+            vcore::machinery_error(&format!("replay divergence: {}", res.divergences[0]));
+        }
+        executions += res.executions;
+        max_points = max_points.max(res.max_points);
+        for v in &res.violations {
+            let (k, t) = v.what.split_once(" :: ").unwrap_or(("c13-mock:unkeyed", &v.what));
+            r.violation(k, &format!("{t} [choices {:?}]", v.choices), json!({"idempotent": idempotent, "choices": v.choices, "labels": v.labels}));
+            found = true;
+        }
+        if res.capped.is_some() {
+            capped = res.capped.clone();
+        }
+        if found || capped.is_some() {
+            break;
+        }
     }
     let s = stats.into_inner().unwrap();
     r.eval(s.executions);
     r.nontrivial(s.nontrivial);
     r.transitions.fetch_add(s.steps, Ordering::Relaxed);
     r.states.store(s.signatures.len() as u64, Ordering::Relaxed);
-    r.counters.add("executions", res.executions);
-    r.counters.add("max_choice_points", res.max_points as u64);
+    r.counters.add("executions", executions);
+    r.counters.add("max_choice_points", max_points as u64);
     r.counters.add("runs_with_frames_outstanding_on_two_or_more_nodes", s.overlapping_runs);
     r.counters.add("max_outstanding_idempotent", s.max_outstanding_idem);
     r.counters.add("max_outstanding_nonidempotent", s.max_outstanding_non);
@@ -405,22 +449,19 @@ fn main() {
     for (k, v) in &s.results {
         r.counters.add(&format!("result_{k}"), *v);
     }
-    for v in &res.violations {
-        let (k, t) = v.what.split_once(" :: ").unwrap_or(("c13-mock:unkeyed", &v.what));
-        r.violation(k, &format!("{t} [choices {:?}]", v.choices), json!({"choices": v.choices, "labels": v.labels}));
-    }
-    if let Some(c) = &res.capped {
+    if let Some(c) = &capped {
         r.note("capped", json!(c));
     }
     r.note("retry_interval_ms", json!(INTERVAL.as_millis() as u64));
+    let p = params(true);
     r.note("settle_ms", json!({"nonidempotent": p.settle_non.as_millis() as u64, "idempotent": p.settle_idem.as_millis() as u64}));
     r.note("speculative_max_counts", json!(p.max_counts));
     r.note("api_variants", json!(p.variants.iter().map(|(a, pg)| format!("{} page {pg}", a.name())).collect::<Vec<_>>()));
-    r.set_exhaustive(res.capped.is_none() && res.violations.is_empty());
+    r.set_exhaustive(capped.is_none() && !found);
     r.set_rule("executions in which the request under test put more than one frame on the wire (a later execution or a move to the next plan target)");
     r.assume("client-internal scheduling and the driver's speculative timer run on the real clock (engine E-MOCK): release orders, outcomes and 'next frame first' are enumerated; how a release races the timer is whatever happens, the oracle holds for both orders");
     r.assume("expected-absent executions are looked for during one settle window per run (30 / 15 retry intervals) and in the log at the end of the run");
-    r.assume("Default retry policy; plan = 3 nodes with one pooled connection each; outcomes: success, Invalid, Overloaded, IsBootstrapping (non-idempotent only)");
+    r.assume("retry policy Default or Fallthrough; plan = 3 nodes with one pooled connection each; outcomes: success, Invalid, Overloaded, IsBootstrapping (non-idempotent with Default only)");
     if r.violation_count() == 0 && (s.max_outstanding_idem < 2 || s.max_outstanding_non != 1 || s.settles == 0) {
         vcore::machinery_error(&format!("vacuous: max outstanding idempotent {} / non-idempotent {} / settle windows {}", s.max_outstanding_idem, s.max_outstanding_non, s.settles));
     }
